@@ -361,7 +361,7 @@ class Interp:
     def st_While(self, node, frame):
         key = self.loop_key(node, frame)
         if key in self.loop_contracts:
-            yield from self.loop_contracts[key](self, node, frame)
+            yield from self._run_loop_contract(key, node, frame)
             return
         n = 0
         while self.truth(self.eval(node.test, frame)):
@@ -377,6 +377,14 @@ class Interp:
         else:
             yield from self.exec_block(node.orelse, frame)
 
+    def _run_loop_contract(self, key, node, frame):
+        """a loop contract written for the reference shape of the loop (names of the locals it reads) may not
+        fit an edited function: that puts the function out of reach, it is not a checker crash"""
+        try:
+            yield from self.loop_contracts[key](self, node, frame)
+        except (KeyError, AttributeError, TypeError, IndexError) as e:
+            raise Unsupported(f"loop contract of {key[0]} loop {key[1]} does not fit the current code ({type(e).__name__}: {e})")
+
     def loop_key(self, node, frame):
         fn = frame.func.qualname if frame.func else frame.module.name
         loops = getattr(frame.func, "_loops", None) if frame.func else None
@@ -390,7 +398,7 @@ class Interp:
     def st_For(self, node, frame):
         key = self.loop_key(node, frame)
         if key in self.loop_contracts:
-            yield from self.loop_contracts[key](self, node, frame)
+            yield from self._run_loop_contract(key, node, frame)
             return
         it = self.eval(node.iter, frame)
         broke = False
